@@ -116,9 +116,7 @@ class _NP:
         return getattr(numpy, k)
 
     def zeros(self, shape, dtype=None, **kw):
-        a = numpy.empty(shape, dtype=object)
-        a[...] = 0
-        return a.view(sx.SArr)
+        return sx.typed_empty(shape, dtype, fill=0)  # an integer dtype request gives a truncating buffer
 
 
 class _Rnd:
@@ -129,6 +127,7 @@ class _Rnd:
 
     def RandomState(self, seed=None):
         outer = self
+        self.seeds = getattr(self, "seeds", []) + [seed]
         if seed is None:
             outer.global_used += 1
 
@@ -192,6 +191,10 @@ def scenario_for(cfg):
             C.assume(len(set(y.tolist())) == 2)
         Xtr = numpy.empty((ntr, 2), dtype=object)
         Xq = numpy.empty((nq, 2), dtype=object)
+        if cfg.get("int_query"):
+            # an integer-typed query matrix (counts / codes): concrete integer features
+            Xq = Xq.view(sx.IntArr)
+            xq = [3 + 2 * i for i in range(nq)]
         for i in range(ntr):
             Xtr[i, 0], Xtr[i, 1] = xtr[i], btr[i]
         for i in range(nq):
@@ -282,6 +285,7 @@ def scenario_for(cfg):
                 C.true(sorted(est.classes_.tolist()) == classes, "classes_")
                 if cfg.get("seed") is not None:
                     C.true(rnd.global_used == 0, "integer-random_state-never-falls-back-to-an-unseeded-generator")
+                    C.true(all(sd == cfg["seed"] for sd in getattr(rnd, "seeds", [])), "every-generator-is-built-from-random_state(whatever-n_jobs)", detail=getattr(rnd, "seeds", []))
 
     return scenario
 
@@ -302,8 +306,10 @@ def configs(tier):
                 if tier == "quick" and weighted and reverse:
                     continue
                 out.append(dict(classifier=False, binner=binner, reverse=reverse, weighted=weighted, train=3, query=2, buckets=3, n_jobs=2 if reverse else None))
-                if tier != "quick":
-                    out.append(dict(classifier=False, binner=binner, reverse=reverse, weighted=weighted, train=4, query=2, buckets=3))
+                if tier != "quick" and binner == "tree" and not weighted:
+                    out.append(dict(classifier=False, binner=binner, reverse=reverse, weighted=weighted, train=4, query=1, buckets=3, n_jobs=2 if reverse else None))
+    for clf_ in (False, True):
+        out.append(dict(classifier=clf_, binner="bins", reverse=False, weighted=False, train=3, query=2 if not clf_ else 1, buckets=2, int_query=True, seed=None, n_jobs=None))
     for binner in ("tree", "bins"):
         for seed in (None, 0, 7):
             out.append(dict(classifier=True, binner=binner, reverse=False, weighted=seed == 7, train=3, query=1, buckets=2, seed=seed, n_jobs=3 if seed == 0 else None))
